@@ -53,6 +53,8 @@ def run(ctx, rep, tier):
     rep.rule("R3", "probes restore every position they touched", 2)
     rep.rule("R4", "committed position changes are followed by model updates for the same cell", 4)
     rep.rule("RC", "reordering evaluates candidates on an up-to-date model; keeps best or restores", 4)
+    rep.rule("NF", "the incremental net model computes in integers (no value passes through float)", 1)
+    rep.rule("AX", "the shift pass builds its model from one topology (positions and pin offsets of the same axis)", 1)
     rep.rule("AP", "shift LP models every pin of the nets it touches", 1)
     rep.rule("PS", "probes evaluate exactly the positions the placement's own position functions return", 3)
     rep.rule("SN", "running minima / maxima of the incremental net model start on the neutral side", 2)
@@ -69,6 +71,16 @@ def run(ctx, rep, tier):
     check_sync(ctx, rep)
     check_reordering(ctx, rep)
     check_allpins(ctx, rep)
+    check_shift_axis(ctx, rep)
+    from .common import check_no_float
+    nf, nb = check_no_float(ctx, rep, "NF", lambda c: c == CQ + "IncrNetModel",
+                            "above 2^24 database units float rounds pin positions (step 8 near 1e8): moves are then judged on rounded positions and "
+                            "the real wirelength can rise although the model value fell")
+    if nf == 0:
+        rep.unknown("NF", None, None, "IncrNetModel", "no member function found")
+    elif nb == 0:
+        rep.holds("NF", "src/place_detailed/incr_net_model.*", None, "%d member functions of IncrNetModel convert nothing between integer and floating point" % nf,
+                  "the two float position accessors excepted")
     check_fresh(ctx, rep)
     check_probe_commit(ctx, rep, "PC")
     check_shared_frames(ctx, rep)
@@ -444,6 +456,35 @@ def check_reordering(ctx, rep):
             done = [e for e in go.nodes if e.kind == "edge" and e.ast is l and e.val == "done"]
             if ups and skip is None and done and go.dominates(done[0], n):
                 ok = True
+        opids = {q.get("id") for q in o.params}
+        if not ok:
+            # the layout of the candidate may live in a private helper (`packRegion(regionInd)`) called, with the region index, before
+            # the recursive evaluation: the helper must contain the complete loop over order_[its parameter]
+            for y in walk(o.body):
+                if y.get("kind") != "CXXMemberCallExpr" or y is x:
+                    continue
+                _c, hs = ctx.eff.resolve_callee(y)
+                yn = go.node_for(y)
+                for h in hs:
+                    if h.cls != o.cls or h is o or h.body is None or yn is None or not go.dominates(yn, n):
+                        continue
+                    hg = cfg_of(h)
+                    hpids = {q.get("id") for q in h.params}
+                    for l in [z for z in walk(h.body) if z.get("kind") == "CXXForRangeStmt"]:
+                        var = inner(list(inner(l))[6])[0]
+                        rv = var.get("_rangevar")
+                        rvc = canon(rv) if rv is not None else ("none",)
+                        if not (rvc[0] == "index" and rvc[1][0] == "field" and rvc[1][1].endswith("RowReordering::order_") and rvc[2][0] == "var" and rvc[2][1] in hpids):
+                            continue
+                        body = list(inner(l))[7]
+                        ups = [z for z in walk(body) if z.get("kind") == "CXXMemberCallExpr" and callee_info(z)["qname"] == CQ + "IncrNetModel::updateCellPos"
+                               and canon(callee_info(z)["obj"]) == ("field", CQ + "RowReordering::xtopo_", ("this",))]
+                        skip = loop_has_early_exit(body) or next((z for z in walk(body) if z.get("kind") in ("ContinueStmt", "IfStmt")), None)
+                        done = [e for e in hg.nodes if e.kind == "edge" and e.ast is l and e.val == "done"]
+                        # the helper receives the same region index the recursion descends from, and runs its loop on every path
+                        arg_ok = any(canon(a_)[0] == "var" and canon(a_)[1] in opids for a_ in callee_info(y)["args"])
+                        if ups and skip is None and done and arg_ok and hg.exit.idx not in hg.reachable_from([hg.entry], avoid=[done[0]]):
+                            ok = True
         if ok:
             rep.holds("RC", x, o, "candidate order evaluated after the x model was updated for every cell of the order")
         else:
@@ -493,6 +534,44 @@ def check_allpins(ctx, rep):
             rep.violation("AP", l["stmt"], f, "a pin of a touched net can be left out of the shift model",
                           "full range: %s; some iteration reaches the next pin without adding an arc: %s" % (full, not covered),
                           key="DetailedPlacer::runShiftsOnCells|pin skipped in LP model")
+
+
+def check_shift_axis(ctx, rep):
+    """AX. The shift pass moves cells along x only: the coordinates and pin offsets its model is built from (cellPos, netPinOffset,
+    netPinPosition, cellPinOffset, ...) are all read from one of the two incremental topologies, the one whose positions it then
+    updates. Both topologies have the same nets and pin numbering, so reading an offset from the other one type-checks and passes
+    every consistency check while the pass optimises "x position + y offset"."""
+    prog = ctx.prog
+    GEOM = ("cellPos", "netPinOffset", "netPinPosition", "cellPinOffset", "cellPinPosition", "netMinPos", "netMaxPos", "netMinMaxPos")
+    for q in ("DetailedPlacer::runShiftsOnCells",):
+        fs = prog.func(CQ + q, required=False) or []
+        if not fs:
+            rep.unknown("AX", None, None, q, "not found")
+            continue
+        f = fs[0]
+        read, written = {}, set()
+        for x in walk(f.body):
+            if x.get("kind") != "CXXMemberCallExpr":
+                continue
+            ci = callee_info(x)
+            if not ci or ci["obj"] is None or not ci["qname"].startswith(CQ + "IncrNetModel::"):
+                continue
+            o = canon(ci["obj"])
+            if ci["name"] in GEOM:
+                read.setdefault(o, []).append(x)
+            elif ci["name"] in ("updateCellPos",):
+                written.add(o)
+        # updates made through the placer's own helper move both models consistently; look at what the helper touches for x
+        what = "%s reads coordinates / pin offsets from %s" % (q.split("::")[-1], sorted(pretty(o) for o in read))
+        if not read:
+            rep.unknown("AX", f.decl, f, what, "no geometric accessor of an incremental topology found (shape changed)")
+        elif len(read) == 1:
+            rep.holds("AX", f.decl, f, what, "a single topology: positions and offsets are on the same axis")
+        else:
+            minority = sorted(read.items(), key=lambda kv: len(kv[1]))[0]
+            rep.violation("AX", minority[1][0], f, what, "%s comes from the other axis' topology: the pass optimises a position on one axis plus an "
+                          "offset of the other and can make the wirelength worse" % pretty(canon(minority[1][0]))[:60],
+                          key="%s|geometry read from both topologies" % f.short)
 
 
 def check_fresh(ctx, rep):
